@@ -37,7 +37,75 @@ def strategy(tier):
     return broad_cases()
 
 
+def eval_cut(case):
+    """A long listing whose record just before a plausible chunk size ends in hexadecimal digits (`push $0x10`) and whose record at
+    the chunk size is a unique instruction: the match of that instruction must start at its own first character, report its
+    own address, and the two-instruction match across the cut must be the concatenation of both records."""
+    from vlib import longlist
+
+    ev = Eval()
+    cut = case["cut"]
+    NV = []
+    addr = 0x400000
+    for q in range(cut + 40):
+        if q == cut - 1:
+            NV.append((format(addr, "x"), "push", ["0x10"]))
+        elif q == cut:
+            NV.append((format(addr, "x"), "zzke", []))
+        elif q == cut + 1:
+            NV.append((format(addr, "x"), "call", ["4010a0"]))
+        elif q == cut + 2:
+            NV.append((format(addr, "x"), "zzle", ["%rax"]))
+        else:
+            NV.append((format(addr, "x"), "nop", []))
+        addr += 1 + q % 2
+    records = [stream_record(a, m, o) for a, m, o in NV]
+    table = record_table(records)
+    text = render([(a, m, ["$" + o if o.startswith("0x") else o for o in ops]) for a, m, ops in NV])
+    for name, pattern, i, j in [("single-at-cut", ["zzke"], cut, cut + 1), ("pair-across-cut", ["push", "zzke"], cut - 1, cut + 1), ("after-hex-operand", ["zzle"], cut + 2, cut + 3)]:
+        doc = jasm_io.make_doc(pattern)
+        combos = [("list", "all", False), ("list", "all", True)] if name != "pair-across-cut" else [("list", "first", False)]
+        res = run_all_modes(doc, text, None, combos=combos)
+        ev.subcases += len(combos)
+        for key, r in res.items():
+            if r[0] == "inconclusive":
+                ev.inconclusive += 1
+            elif r[0] == "exc":
+                ev.dev("exception", cut=cut, rule=name, mode=list(key), error=list(r[1:]))
+            elif key[2]:
+                if r[1] != [NV[i][0]]:
+                    ev.dev("address-mismatch", cut=cut, rule=name, expected=[NV[i][0]], observed=r[1][:3])
+            else:
+                want = "".join(records[i:j])
+                if r[1] != [want]:
+                    ev.dev("match-not-aligned", cut=cut, rule=name, expected=want, observed=[t[:80] for t in r[1][:3]])
+    ev.tags = ["cut-listing"]
+    ev.nontrivial = True
+    ev.keys = [("cut", cut)]
+    ev.sample = {"cut": cut, "instructions": len(NV)}
+    return ev
+
+
+def _cut_worker(cut):
+    case = {"cut": cut}
+    return case, eval_cut(case)
+
+
+def extra(tier, seed, rep):
+    """Long listings around every plausible chunk size (vlib/longlist.py): alignment and addresses of matches at the cut."""
+    import multiprocessing as mp
+
+    from vlib import longlist
+
+    with mp.get_context("fork").Pool(16, maxtasksperchild=1) as pool:
+        for case, ev in pool.imap_unordered(_cut_worker, sorted(longlist.CUTS, reverse=True), chunksize=1):
+            rep.add_eval(case, ev)
+    rep.exhaustive_parts.append(f"long listings: all {len(longlist.CUTS)} chunk-size candidates x 3 rules at the cut (single instruction, pair across it, instruction after a hex-ending operand)")
+
+
 def evaluate(case):
+    if "cut" in case:
+        return eval_cut(case)
     ev = Eval()
     L = case["listing"]
     NV = norm_view(L)
